@@ -17,14 +17,17 @@ let mat_of_cols (d : int) (cols : Obj.t list list) : float array array =
   List.iteri (fun i col -> List.iteri (fun r x -> a.(r).(i) <- fl x) col) cols;
   a
 
-let dump tag k d (s : Obj.t list sset) =
+let dump tag k d (s : (Obj.t list, nat) sset) =
   let sk = string_of_int k in
-  let n = List.length s.s_states in
+  let n = List.length s.s_parts in
   Caseio.out_int (tag ^ "n" ^ sk) n;
   Caseio.out_int (tag ^ "dl" ^ sk) (int_of_nat s.s_lin);
   Caseio.out_int (tag ^ "dc" ^ sk) (int_of_nat s.s_circ);
   Caseio.out_mat_shape (tag ^ "lw" ^ sk) (List.length s.s_lw) 1 (col_of_lvec s.s_lw);
-  Caseio.out_mat_shape (tag ^ "st" ^ sk) d n (mat_of_cols d s.s_states)
+  Caseio.out_mat_shape (tag ^ "st" ^ sk) d n (mat_of_cols d (List.map fst s.s_parts));
+  (* which initial particle the mean/covariance blocks of each particle come from *)
+  Caseio.out_mat_shape (tag ^ "aux" ^ sk) n 1
+    (Array.of_list (List.map (fun p -> [| float_of_int (int_of_nat (snd p)) |]) s.s_parts))
 
 let () =
   let cases = Caseio.read_records "case" stdin in
@@ -57,11 +60,11 @@ let () =
           else
             (if flag c "likvalid" k then Some (Array.to_list (Array.map ob (Caseio.get_mat c "lik").(k))) else None) in
         let s0 = { s_lin = nat_of_int dl; s_circ = nat_of_int dc;
-                   s_states = cols_of (Caseio.get_mat c "init_state");
+                   s_parts = List.mapi (fun i x -> (x, nat_of_int i)) (cols_of (Caseio.get_mat c "init_state"));
                    s_lw = lvec_of_col (Caseio.get_mat c "init_lw") } in
         (* SIS constructor: cor_particle_(num_particle_, linear, circular): zero states, weights 1/N *)
         let c0 = { s_lin = nat_of_int dl; s_circ = nat_of_int dc;
-                   s_states = List.init n (fun _ -> List.init d (fun _ -> ob 0.0));
+                   s_parts = List.init n (fun i -> (List.init d (fun _ -> ob 0.0), nat_of_int i));
                    s_lw = List.init n (fun _ -> ob (1.0 /. float_of_int n)) } in
         let st0 = { step = O; pred = s0; cor = c0 } in
         let evs =
@@ -76,7 +79,7 @@ let () =
         let tr = c06_trace_full fops (nat_of_int n) st0 evs in
         Caseio.out_begin c.id;
         List.iteri
-          (fun k (((m : Obj.t list sset), (dec : bool)), (st : Obj.t list sis_state)) ->
+          (fun k (((m : (Obj.t list, nat) sset), (dec : bool)), (st : (Obj.t list, nat) sis_state)) ->
             let sk = string_of_int k in
             dump "c" k d st.cor; dump "p" k d st.pred;
             Caseio.out_int ("step" ^ sk) (int_of_nat st.step);
